@@ -6,6 +6,7 @@ hierarchy as the interpreter sees them (inputs of the model, CPython built-ins).
 import abc
 import inspect
 import os
+import signal
 import sys
 
 sys.path.insert(0, os.path.dirname(os.path.abspath(__file__)))
@@ -16,6 +17,19 @@ from traits.adaptation.api import (  # noqa: E402
     AdaptationError, AdaptationManager, AdaptationOffer, adapt, set_global_adaptation_manager, supports_protocol)
 
 DEFAULT = object()
+QUERY_LIMIT_S = 5      # a query that runs longer is reported as a (non-terminating) failure, not waited for
+
+
+TIMEOUTS = [0]           # after two timeouts the limit drops to 0.25 s so that a looping search cannot stall the run
+
+
+class QueryTimeout(BaseException):
+    pass
+
+
+def _alarm(signum, frame):
+    raise QueryTimeout()
+
 ATTR = {"inst0": "i0", "inst1": "i1", "inst2": "i2", "Supports": "sup", "AdaptsTo": "ada"}
 
 
@@ -102,6 +116,7 @@ def run_case(case):
     for src, tgt, flag, api in case["ops"]:
         obj = ts[src]()
         obj.flag = bool(flag)
+        signal.setitimer(signal.ITIMER_REAL, QUERY_LIMIT_S if TIMEOUTS[0] < 2 else 0.25)
         try:
             if api == "adapt":
                 o = {"k": "value", "v": classify(m.adapt(obj, ts[tgt]), obj, DEFAULT)}
@@ -120,13 +135,19 @@ def run_case(case):
             o = {"k": "AdaptationError"}
         except TraitError:
             o = {"k": "TraitError"}
+        except QueryTimeout:
+            TIMEOUTS[0] += 1
+            o = {"k": "other", "exc": "no answer within %d s" % QUERY_LIMIT_S}
         except Exception as e:  # noqa: BLE001
             o = {"k": "other", "exc": type(e).__name__}
+        finally:
+            signal.setitimer(signal.ITIMER_REAL, 0)
         obs.append(o)
     return {"ok": True, "sub": sub, "mro": mro, "obs": obs}
 
 
 def main():
+    signal.signal(signal.SIGALRM, _alarm)
     cases = dlib.load()
     dlib.dump([run_case(c) for c in cases])
 
